@@ -115,6 +115,7 @@ class RSocketBase(RSocket, RSocketInternal):
         self._frame_fragment_cache = FrameFragmentCache()
         self._send_queue = QueuePeekable()
         self._request_queue = asyncio.Queue(self._request_queue_size)
+        self._frames_behind_queued_request = {}
 
         if self._honor_lease:
             self._requester_lease = DefinedLease(maximum_request_count=0)
@@ -184,6 +185,8 @@ class RSocketBase(RSocket, RSocketInternal):
         logger().debug('%s: lease not allowing to send request. queueing', self._log_identifier())
 
         self._request_queue.put_nowait(frame)
+        # whatever else the stream sends meanwhile (REQUEST_N, CANCEL) must not reach the wire before its request
+        self._frames_behind_queued_request[frame.stream_id] = []
 
     def send_priority_frame(self, frame: Frame):
         items = []
@@ -195,7 +198,12 @@ class RSocketBase(RSocket, RSocketInternal):
             self._send_queue.put_nowait(item)
 
     def send_frame(self, frame: Frame):
-        self._send_queue.put_nowait(frame)
+        behind_request = self._frames_behind_queued_request.get(frame.stream_id)
+
+        if behind_request is not None:
+            behind_request.append(frame)
+        else:
+            self._send_queue.put_nowait(frame)
 
     def send_complete(self, stream_id: int):
         self.send_payload(stream_id, Payload(), complete=True, is_next=False)
@@ -312,8 +320,13 @@ class RSocketBase(RSocket, RSocketInternal):
         )
 
         while not self._request_queue.empty() and self._requester_lease.is_request_allowed():
-            self.send_frame(self._request_queue.get_nowait())
+            request = self._request_queue.get_nowait()
+            behind_request = self._frames_behind_queued_request.pop(request.stream_id, ())
+            self.send_frame(request)
             self._request_queue.task_done()
+
+            for later_frame in behind_request:
+                self.send_frame(later_frame)
 
     async def _receiver(self):
         try:
